@@ -257,6 +257,14 @@ pub fn request_and_create(w: &mut World, n: usize, req: &Req) -> Option<SyncOutc
             }
         }
         other => {
+            if w.fault_fired(0) && matches!(other, Res::Err(..)) {
+                // an injected storage fault on the writer surfaced as an error: C10 judges it
+                w.aborted = Some("injected fault surfaced in create_proof".into());
+                return None;
+            }
+            if matches!(other, Res::Panic(_) | Res::Hang(_)) {
+                w.calls[call].crashed = true;
+            }
             let b = other.brief();
             w.viol(clause, format!("honest request {c:?} (nodes {nodes}) not served: {b}"));
             if w.nodes[0].dead {
